@@ -30,8 +30,4 @@ theorem matchers_fact :
     Generated.Queue.groupIsMatch = "(*g.Operator)(job.JobDetail().JobKey().Group(), g.Pattern)" ∧
     Generated.Queue.filterBody = "{ if !matcher.IsMatch(job) { continue JobLoop } }" := by decide
 
-/-- the model's key equality is equality of the pair (group, name) -/
-theorem sameKey_iff (a b : Entry) : a.sameKey b = true ↔ (a.group = b.group ∧ a.name = b.name) := by
-  simp [Entry.sameKey, and_comm]
-
 end Queue
